@@ -41,6 +41,13 @@ theorem C20_crossprocess_partial (n : Nat) (proc : Nat → Nat) (s0 s : State) (
   have inv := invP_reach n proc s0 s h0 h
   exact ⟨inv.noPartial, inv.finalWhole⟩
 
+/-- The proposed repair (proposed_fixes/C20-crossprocess-build-lock.patch): if the builders of ALL processes serialise on
+    one lock (an exclusive file lock next to the sidecar), cross-process safety holds at full strength — it is the
+    in-process theorem with a single lock domain. -/
+theorem C20_crossprocess_of_shared_lock (n : Nat) (s0 s : State) (h0 : Init n s0) (h : Reach n (fun _ => 0) s0 s) :
+    ∀ j, s.rph j ≠ .failed ∧ s.rph j ≠ .sawPartial :=
+  (C20_inprocess n (fun _ => 0) (fun _ _ => rfl) s0 s h0 h).1
+
 def s0 : State := { final := none, bph := fun _ => .start, rph := fun _ => .start, lock := fun _ => none }
 def whole : Dir := { rgs := [(0, true)], complete := some .fresh }
 
